@@ -62,6 +62,35 @@ def run(model, rep):
            'all %d planted effect kinds are reported by the same machinery' % len(want), key='C11|control', trivial=True)
 
 
+def arguments_unchanged(model, rep):
+    """End to end: the real minify() evaluated with an options object and preserve lists the caller keeps; afterwards they are what they were."""
+    from ..absnodes import public_value
+    from ..minrun import Lazy, annotation_options, minify_tree
+    from .transform_e2e import ann_probe
+    mi = model.func('python_minifier.minify')
+    fields = ('remove_variable_annotations', 'remove_return_annotations', 'remove_argument_annotations', 'remove_class_attribute_annotations')
+    source = ann_probe() + 'def uses(first_value, second_value):\n    kept_local = first_value\n    return kept_local, second_value, kept_local\n__all__ = ["uses"]\n'
+    for bits in ((True, True, True, True), (False, False, False, True), (True, False, True, False)):
+        box = []
+        inner = annotation_options(model, **dict(zip(fields, bits)))
+        opt = Lazy(lambda I, _f=inner.fn: (box.append(_f(I)), box[-1])[1], inner.label)
+        locals_, globals_ = ['kept_local', 'T'], ['uses']
+        kind, out, _m = minify_tree(model, source, {'remove_annotations': opt, 'preserve_locals': locals_, 'preserve_globals': globals_, 'rename_locals': True, 'rename_globals': True,
+                                                    'hoist_literals': True, 'combine_imports': True, 'remove_pass': True})
+        label = 'minify(remove_annotations=%s, preserve_locals=[...], preserve_globals=[...])' % inner.label
+        if kind != 'ok':
+            rep.violation('C11.MUT', mi.loc(), label, 'minify raises %s' % (out,), key='C11.MUT|e2e|%s' % (bits,))
+            continue
+        after = tuple(public_value(model, box[0], f) for f in fields) if box else None
+        problems = []
+        if after != bits:
+            problems.append('the options object comes back as %s, was %s' % (dict(zip(fields, after or ())), dict(zip(fields, bits))))
+        if locals_ != ['kept_local', 'T'] or globals_ != ['uses']:
+            problems.append('the preserve lists come back as %r / %r' % (locals_, globals_))
+        rep.check(not problems, 'C11.MUT', mi.loc(), label + ' on a module with nested protected classes and a literal __all__', 'the caller\'s objects are unchanged after the call',
+                  '; '.join(problems) + ': a later call that reuses them behaves differently', key='C11.MUT|e2e|%s' % (bits,))
+
+
 def decide(model, rep, entries, control=False):
     cg = CallGraph(model)
     E = Effects(model, cg)
@@ -84,7 +113,8 @@ def decide(model, rep, entries, control=False):
             else:
                 rep.ok('C11.MUT', fi.loc(), '%s(%s)' % (fi.name, p), 'not mutated (callee summaries followed)', key='C11.MUT|%s|%s' % (fi.name, p))
     if not control:
-        rep.floor('C11.MUT', 20)
+        arguments_unchanged(model, rep)
+        rep.floor('C11.MUT', 23)
 
     # ---------------- GLOB
     n_glob = 0
